@@ -244,6 +244,17 @@ impl Signer {
         Signer { key, addr }
     }
 
+    /// A signer whose key is derived from a 64-bit seed (for workloads with hundreds of senders).
+    pub fn new_seeded(seed: u64) -> Signer {
+        let mut k = [0u8; 32];
+        k[0] = 0x43;
+        k[8..16].copy_from_slice(&seed.to_be_bytes());
+        k[31] = 1;
+        let key = PrivateKeySigner::from_slice(&k).expect("valid key");
+        let addr = key.address().0 .0;
+        Signer { key, addr }
+    }
+
     /// Signed legacy transaction, RLP encoded (hex without 0x). `to = None` creates.
     pub fn sign(&self, chain_id: Option<u64>, nonce: u64, to: Option<[u8; 20]>, data: &[u8]) -> String {
         let tx = TxLegacy {
@@ -516,7 +527,7 @@ impl Default for Profile {
             p_big_block: 0,
             huge_pct: 25,
             big_blocks_left: 3,
-            p_odd_ids: 0,
+            p_odd_ids: 4,
         }
     }
 }
@@ -584,8 +595,10 @@ impl World {
     pub fn iid(&mut self) -> String {
         let u = self.uniq();
         if self.profile.p_odd_ids > 0 && self.rng.chance(self.profile.p_odd_ids, 100) {
-            return match self.rng.below(5) {
-                0 => format!("{:064x}i{}{}", u, u % 3, "0".repeat(300)),
+            return match self.rng.below(8) {
+                0 | 5 => format!("{:064x}i{}{}", u, u % 3, "0".repeat(300)),
+                6 => format!("{:0256x}", u),  // exactly 256 bytes
+                7 => format!("{:0255x}", u),  // exactly 255 bytes
                 1 => format!("\"quoted\\{:x}\"i0", u),
                 2 => format!("ünï-{:x}-漢字i0", u),
                 3 => format!("{:x}", u),
